@@ -241,15 +241,25 @@ def is_self_signed_ok(cert: dict) -> bool:
     return signature_ok(cert_pub(cert), enc_tbs_cert(cert["toBeSigned"]), cert.get("signature"), None) is not None
 
 
-def cert_wellformed(cert: dict) -> bool:
+def cert_malformed(cert: dict):
     """Value constraints of the certificate fields that are NOT covered by the issuer's signature (the ASN.1
     schema fixes ``version`` to 3; ETSI TS 103 097 clause 6 uses explicit certificates with a verification key).
-    asn1tools does not enforce value constraints when decoding, so the oracle does."""
+    asn1tools does not enforce value constraints when decoding, so the oracle does.  Returns the name of the
+    offending field or None."""
     try:
-        return (cert.get("version") == 3 and cert.get("type") == "explicit"
-                and cert["toBeSigned"]["verifyKeyIndicator"][0] == "verificationKey")
+        if cert.get("version") != 3:
+            return "version"
+        if cert.get("type") != "explicit":
+            return "type"
+        if cert["toBeSigned"]["verifyKeyIndicator"][0] != "verificationKey":
+            return "verifyKeyIndicator"
     except Exception:  # noqa: BLE001
-        return False
+        return "structure"
+    return None
+
+
+def cert_wellformed(cert: dict) -> bool:
+    return cert_malformed(cert) is None
 
 
 def link_ok(cert: dict, issuer: dict) -> bool:
@@ -346,8 +356,9 @@ def classify(sec: bytes, trust: Trust, known_ats: dict, check_perms=False, stric
     ch = trust.chain(at, extra, check_perms=check_perms, strict=strict)
     if ch is None or len(ch) < 2:
         why = "chain"
-        if strict and trust.chain(at, extra, check_perms=check_perms, strict=False) is not None:
-            why = "chain_malformed_certificate"      # signatures verify, a field outside the signed part is invalid
+        loose = trust.chain(at, extra, check_perms=check_perms, strict=False) if strict else None
+        if loose is not None:       # signatures verify, a field outside the signed part is invalid
+            why = "chain_malformed_certificate:" + ",".join(sorted({cert_malformed(c) for c in loose if cert_malformed(c)}))
         return Verdict(authentic=False, why=why, signer=h8(at), at=at, **base)
     conv = signature_ok(cert_pub(at), enc_tbs_data(tbs), sd.get("signature"), enc_cert(at))
     if conv is None:
